@@ -284,8 +284,16 @@ class PyHarness(Harness):
 _SUM = ("obligations", "discharged", "validated", "reached", "twin_violated")
 
 
-def mk_batch(specs, tag="", tier="quick"):
-    """custom job: one harness per program, results merged"""
+def _spec(p, tier):
+    return dict(pid=p["id"], src=p["src"], entry=p["entry"], feats=p["feats"], small=list(SMALL[tier]),
+                max_steps=4000 if tier == "quick" else 8000, max_paths=1500 if tier == "quick" else 4000)
+
+
+def mk_batch(ids, tag="", tier="quick", seed=0):
+    """custom job: one harness per program (programs are regenerated from (tier, seed) and picked by id,
+    so that job descriptions stay short), results merged"""
+    byid = {p["id"]: p for p in select(tier, seed)}
+    specs = [_spec(byid[i], tier) for i in ids]
     known = load_known(os.path.join(ROOT, "known_findings.json"), PROPERTY)
     res = dict(harness=f"batch{tag}[{len(specs)} programs]", violations=[], known_hits=[], inconclusive=[],
                errors=[], funcs=[], samples=[], stats={}, solver={}, outcomes={}, exhaustive=True, nontrivial=0,
@@ -338,10 +346,7 @@ def jobs(tier, seed):
     only = os.environ.get("VERIF_ONLY")
     if only:
         progs = [p for p in progs if only in p["id"] or only in ",".join(p["feats"])]
-    small = SMALL[tier]
-    steps = 4000 if tier == "quick" else 8000
-    specs = [dict(pid=p["id"], src=p["src"], entry=p["entry"], feats=p["feats"], small=list(small), max_steps=steps,
-                  max_paths=1500 if tier == "quick" else 4000) for p in progs]
+    specs = [p["id"] for p in progs]
     nb = min(len(specs), 32 if tier == "quick" else 128)
     order = sorted(range(len(specs)), key=lambda k: _cost(progs[k]), reverse=True)
     bins = [[] for _ in range(nb)]
@@ -350,4 +355,4 @@ def jobs(tier, seed):
         j = load.index(min(load))
         bins[j].append(specs[k])
         load[j] += _cost(progs[k])
-    return [("mk_batch", dict(specs=b, tag=f"#{n}", tier=tier)) for n, b in enumerate(bins) if b]
+    return [("mk_batch", dict(ids=b, tag=f"#{n}", tier=tier, seed=seed)) for n, b in enumerate(bins) if b]
